@@ -51,24 +51,43 @@ let read_out r s a o nb : out =
       { part; rew; os })) in
   { sosa; bels }
 
-let kinds = ["dense"; "sparse"; "generic"]
+(* model variants per case kind, in the harness's output order; all but "generic" are library models
+   (Eigen branch); "dense" is the reference for the paths-agree clause *)
+let kinds_bel = ["dense"; "sparse"; "generic"]
+let kinds_reset = ["dense"; "dense-m"; "dense-c"; "sparse"; "sparse-m"; "sparse-d"; "sparse-c"; "generic"]
 
 let judge _id (c : cursor) (r : cursor) : bool * string =
   let kind = next c in
-  if kind <> "bel" then failwith ("unknown case kind " ^ kind);
+  let kinds = (match kind with "bel" -> kinds_bel | "reset" -> kinds_reset | _ -> failwith ("unknown case kind " ^ kind)) in
   let regime = next c in
   let exact = (regime = "dy") in
   let s = next_int c in let a = next_int c in let o = next_int c in
-  let tT = read_n c a (fun c -> read_n c s (fun c -> read_n c s next_q)) in
-  let tO = read_n c a (fun c -> read_n c s (fun c -> read_n c o next_q)) in
-  let tR = read_n c s (fun c -> read_n c a (fun c -> read_n c s next_q)) in
+  let read_tables () =
+    let tT = read_n c a (fun c -> read_n c s (fun c -> read_n c s next_q)) in
+    let tO = read_n c a (fun c -> read_n c s (fun c -> read_n c o next_q)) in
+    let tR = read_n c s (fun c -> read_n c a (fun c -> read_n c s next_q)) in
+    (tT, tO, tR) in
+  (* "reset": the first tables only pre-load the models; the ground truth is what was supplied last *)
+  if kind = "reset" then ignore (read_tables ());
+  let (tT, tO, tR) = read_tables () in
   let nb = next_int c in
   let beliefs = read_n c nb (fun c -> read_n c s next_q) in
   let m = mk_pomdp (n s) (n a) (n o) tT tO tR (q_of_ints 1 2) in
   let g = table_model (n s) (n a) (n o) tT tO tR in
   let gq = queries_of m in
-  let outs = List.map (fun k -> (k, read_out r s a o nb)) kinds in
+  (* a variant whose construction from the (valid) supplied tables threw has no outputs; it is reported
+     after the oracle has looked at the variants that could be built *)
+  let thrown = ref [] in
+  let outs = List.concat_map (fun k ->
+      match next r with
+      | "ok" -> [(k, read_out r s a o nb)]
+      | "throw" -> let e = next r in thrown := (k, e) :: !thrown; []
+      | "THROW" -> oracle_fail "paths_agree" ("construct<" ^ k ^ ">") ("exception escaped the harness: " ^ next r)
+      | t -> failwith ("unexpected token in implementation output: " ^ t)) kinds in
   if not (at_end r) then failwith "trailing tokens in implementation output";
+  let kinds = List.map fst outs in
+  if not (List.mem "dense" kinds) then
+    oracle_fail "paths_agree" "construct<dense>" "the dense model could not be built from valid tables";
   let same x y = if exact then q_eq x y else fclose x y in
   let same_l xs ys = List.length xs = List.length ys && List.for_all2 same xs ys in
   let close_l xs ys = List.length xs = List.length ys && List.for_all2 (fun x y -> fclose x y) xs ys in
@@ -196,9 +215,12 @@ let judge _id (c : cursor) (r : cursor) : bool * string =
               if not (List.for_all2 close_x po1.nm po2.nm) then oracle_fail "paths_agree" (site "updateBelief" k) "normalised results differ from dense";
               if not (List.for_all2 close_x po1.pnm po2.pnm && List.for_all2 close_x po1.pnv po2.pnv) then oracle_fail "paths_agree" (site "updateBeliefPartialNormalized" k) "normalised results differ from dense")
             pa1.os pa2.os) pb1 pb2) dense.bels out.bels)
-    ["sparse"; "generic"];
+    (List.filter (fun k -> k <> "dense") kinds);
+  List.iter (fun (k, e) ->
+      oracle_fail "paths_agree" ("construct<" ^ k ^ ">") ("valid tables rejected with " ^ e ^ " on this construction path"))
+    (List.rev !thrown);
   (* ---------------------------------------------------------------- C: extracted model vs implementation *)
-  let zero_seen = ref false and pos_seen = ref false in
+  let zero_seen = ref false and pos_seen = ref false and tiny_seen = ref false in
   List.iter (fun (k, out) ->
       let eig = (k <> "generic") in
       let cmp_q f what (impl : xnum list) (model : q list) =
@@ -223,7 +245,9 @@ let judge _id (c : cursor) (r : cursor) : bool * string =
               cmp_q "beliefExpectedReward" "beliefExpectedReward" [pa.rew] [md_rew (eig, bi, ai)];
               List.iteri (fun oi po ->
                   let no = n oi in
-                  if q_eq (sp_pr (bi, ai, oi)) q_zero then zero_seen := true else pos_seen := true;
+                  let pr = sp_pr (bi, ai, oi) in
+                  if q_eq pr q_zero then zero_seen := true else pos_seen := true;
+                  if q_lt q_zero pr && q_le pr (q_of_ints 1 1000000) then tiny_seen := true;
                   cmp_q "updateBeliefUnnormalized" "updateBeliefUnnormalized" po.un (md_un (eig, bi, ai, oi));
                   cmp_x "updateBelief" "updateBelief" po.nm (md_nm (eig, bi, ai, oi));
                   (* second stage on the implementation's own intermediate belief *)
@@ -241,7 +265,8 @@ let judge _id (c : cursor) (r : cursor) : bool * string =
         if not (veqb (unnormQ gq b (n ai) (n oi)) (md_un (true, bi, ai, oi))) then
           disagree "paths_agree" "model" "unnormQ (queries_of m) differs from unnormE m") so_range) sa_range) beliefs;
   let nontrivial = s >= 3 in
-  let tag = Printf.sprintf "%s-S%d%s%s" regime s (if !zero_seen then "-z" else "") (if !pos_seen then "" else "-nopos") in
+  let tag = Printf.sprintf "%s%s-S%d%s%s%s" (if kind = "reset" then "reset-" else "") regime s
+      (if !zero_seen then "-z" else "") (if !tiny_seen then "-t" else "") (if !pos_seen then "" else "-nopos") in
   (nontrivial, tag)
 
 let () = main_loop judge
